@@ -49,10 +49,22 @@ SPEC_NAMES = ["matrix", "translate", "translatex", "translatey", "scale", "scale
 
 
 def parse_loop(ctx):
-    fn = ctx.fn("Matrix.parse", "R04.1")
-    loops = [s for s in fn.body if isinstance(s, ast.For)]
-    ctx.need(len(loops) == 1, "R04.1", "Matrix.parse: the loop over transform functions not found")
-    return fn, loops[0]
+    """The transform-function loop, found by role: the Matrix method iterating REGEX_TRANSFORM_TEMPLATE matches,
+    which Matrix.parse must be or must call."""
+    cls = ctx.m.cls("Matrix", "R04.1")
+    found = []
+    for name, f in cls.methods.items():
+        for s in ast.walk(f):
+            if isinstance(s, ast.For) and "REGEX_TRANSFORM_TEMPLATE" in ast.unparse(s.iter):
+                found.append((name, f, s))
+    ctx.need(len(found) == 1, "R04.1", "Matrix: the loop over transform functions not found (%d candidates)" % len(found))
+    name, fn, loop = found[0]
+    ctx.functions.add("Matrix.%s" % name)
+    if name != "parse":
+        entry = ctx.fn("Matrix.parse", "R04.1")
+        reaches = any(isinstance(c, ast.Call) and ast.unparse(c.func) == "self.%s" % name for c in ast.walk(entry))
+        ctx.need(reaches, "R04.1", "Matrix.parse does not reach the transform loop in Matrix.%s" % name)
+    return fn, loop
 
 
 def dispatch(ctx):
